@@ -1,4 +1,5 @@
 from datetime import datetime
+from io import BytesIO
 from pathlib import Path
 from typing import IO, List, Optional, Type, Union
 
@@ -332,6 +333,29 @@ class Tdf:
         """Convenience property to get/set the calibration data block."""
         return self.get_block(CalibrationDataBlock.type)
 
+    @staticmethod
+    def _serialize(newBlock: Block, comment: str, offset: int):
+        """Build the entry for a block and serialize both to memory.
+        Raises if the block or the comment can't be encoded."""
+        if not isinstance(newBlock, Block):
+            raise TypeError(f"Expected a Block, got {type(newBlock)}")
+
+        new_entry = TdfEntry(
+            type=newBlock.type,
+            format=newBlock.format.value,
+            offset=offset,
+            size=newBlock.nBytes,
+            creation_date=newBlock.creation_date,
+            last_modification_date=newBlock.last_modification_date,
+            last_access_date=datetime.now(),
+            comment=comment,
+        )
+        entry_buffer = BytesIO()
+        new_entry._write(entry_buffer)
+        block_buffer = BytesIO()
+        newBlock._write(block_buffer)
+        return new_entry, entry_buffer, block_buffer
+
     @raise_if_outside_write_context
     def add_block(
         self, newBlock: Block, comment: str = "Generated by basicTDF"
@@ -354,6 +378,9 @@ class Tdf:
                 "Can't add blocks, this file was opened in read-only mode"
             )
 
+        if not isinstance(newBlock, Block):
+            raise TypeError(f"Expected a Block, got {type(newBlock)}")
+
         # unused slots are the only "type" that may appear more than once
         if newBlock.type != BlockType.unusedSlot and any(
             entry.type == newBlock.type for entry in self.entries
@@ -373,16 +400,18 @@ class Tdf:
         except StopIteration:
             raise ValueError(f"Block limit reached ({len(self.entries)})")
 
-        # write new entry with the offset of that unused slot
-        new_entry = TdfEntry(
-            type=newBlock.type,
-            format=newBlock.format.value,
-            offset=self.entries[unusedBlockPos].offset,
-            size=newBlock.nBytes,
-            creation_date=newBlock.creation_date,
-            last_modification_date=newBlock.last_modification_date,
-            last_access_date=datetime.now(),
-            comment=comment,
+        if any(
+            entry.type != BlockType.unusedSlot
+            for entry in self.entries[unusedBlockPos + 1 :]
+        ):
+            raise IOError("All unused slots must be at the end of the file")
+
+        # new entry with the offset of that unused slot. The entry and the
+        # block are serialized before touching the file or the entries, so
+        # that a block or a comment that can't be encoded leaves everything
+        # as it was
+        new_entry, entry_buffer, block_buffer = self._serialize(
+            newBlock, comment, self.entries[unusedBlockPos].offset
         )
 
         # replace the entry
@@ -390,22 +419,19 @@ class Tdf:
 
         # write new entry
         self.handler.seek(64 + 288 * unusedBlockPos, 0)
-        new_entry._write(self.handler)
+        self.handler.write(entry_buffer.getvalue())
 
         # update all unused slots's offset
         for n, entry in enumerate(
             self.entries[unusedBlockPos + 1 :], start=unusedBlockPos + 1
         ):
-            if entry.type == BlockType.unusedSlot:
-                entry.offset = new_entry.offset + new_entry.size
-                self.handler.seek(64 + 288 * n, 0)
-                entry._write(self.handler)
-            else:
-                raise IOError("All unused slots must be at the end of the file")
+            entry.offset = new_entry.offset + new_entry.size
+            self.handler.seek(64 + 288 * n, 0)
+            entry._write(self.handler)
 
         # write new block
         self.handler.seek(new_entry.offset, 0)
-        newBlock._write(self.handler)
+        self.handler.write(block_buffer.getvalue())
 
         # ensure the file is the correct size
         # and that the changes are written to disk
@@ -545,6 +571,16 @@ class Tdf:
             raise ValueError(f"No block of type {newBlock.type} found")
 
         comment = comment if comment is not None else old_entry.comment
+
+        # make sure the new block can be added before the old one is removed
+        self._serialize(newBlock, comment, 0)
+        remaining = [entry for entry in self.entries if entry is not old_entry]
+        first_unused = next(
+            (n for n, e in enumerate(remaining) if e.type == BlockType.unusedSlot),
+            len(remaining),
+        )
+        if any(e.type != BlockType.unusedSlot for e in remaining[first_unused:]):
+            raise IOError("All unused slots must be at the end of the file")
 
         self.remove_block(newBlock.type)
         self.add_block(newBlock, comment)
